@@ -115,6 +115,14 @@ def run(ctx):
                 ctx.violation('rotate refused a valid integer vector set (%s)' % str(e).split(':')[0][:40], str(W) + ' ' + name + ' ' + str(e)[:200], c)
         except Exception as e:
             ctx.violation('rotate raised %s' % excname(e), str(W) + ' ' + repr(e)[:200], c)
+    # the identity (no re-orientation asked for) and a cyclic relabelling on EVERY cell whose box is not anchored at the origin: the crystal
+    # stays where it is whichever vectors are requested
+    for name in names:
+        for W in ([[1, 0, 0], [0, 1, 0], [0, 0, 1]], [[0, 1, 0], [0, 0, 1], [1, 0, 0]]):
+            try:
+                recs.append(rotate_rec(am, name, UO[name], W))
+            except Exception as e:
+                ctx.violation('rotate raised %s' % excname(e), str(W) + ' ' + name + ' (cell with non-zero origin) ' + repr(e)[:200])
     # hexagonal 4-index input and non-integer refusal
     for W4 in ([[2, -1, -1, 0], [-1, 2, -1, 0], [0, 0, 0, 1]], [[1, 0, -1, 0], [-1, 2, -1, 0], [0, 0, 0, 1]], [[1, 1, -2, 0], [-1, 1, 0, 0], [0, 0, 0, 2]]):
         W = [[r[0] - r[2], r[1] - r[2], r[3]] for r in W4]
